@@ -84,7 +84,9 @@ pub fn h_entry_direct<K: Shape, V: Shape, const N: usize>(which: u8) {
     let k: K = kani::any();
     let v: V = kani::any();
     let old = pre.get(&k);
-    kani::assume(old.is_some() || pre.len < N);
+    // only the variants that insert need room; looking at a vacant entry of a full map
+    // (key, into_key) must work too
+    kani::assume(old.is_some() || pre.len < N || which == 1);
     let stored = old.map(|p| p.0).unwrap_or(k);
     let mut removed = false;
     let mut final_val: Option<V> = old.map(|p| p.1);
